@@ -5,6 +5,7 @@
    The specification side ([no_dot], [shows], [hidden], [listing], [subseq], [registered_names],
    [algs12], [url_char]) is defined in Proofs/Jwt.v independently of the converters of the model. *)
 From WI Require Import Lib.Base Lib.Info Lib.Time Model.Base64 Model.Jwt Proofs.Jwt.
+From WI Require Run.C18 Proofs.JwtDate Model.Dispatch Proofs.JwtDispatch.
 From Coq Require Import Permutation.
 Open Scope N_scope.
 
@@ -124,6 +125,15 @@ Theorem C18_numeric_date_shown : forall k m mant e,
 Proof. exact numeric_date_listed. Qed.
 Print Assumptions C18_numeric_date_shown.
 
+(* "the UTC time they denote": the text shown for an instant t of the calendar, read back as
+   "YYYY-MM-DD hh:mm:ss" through the inverse calendar function (the reader of the spec checker,
+   Run/C18.v), is t itself.  Together with C18_numeric_date_shown: the text listed for a numeric
+   exp/nbf/iat denotes the second the number falls in. *)
+Theorem C18_date_text_denotes : forall t,
+  in_calendar t = true -> Run.C18.parse_datetime (fmt_datetime (civil_of_unix t 0)) = Some t.
+Proof. exact Proofs.JwtDate.date_text_denotes. Qed.
+Print Assumptions C18_date_text_denotes.
+
 Example C18_numeric_date_example :
   attrs_of [(bs "exp", JNum 1700000000 0); (bs "nbf", JNum (-1) (-1)); (bs "iat", JNum 3400000001 (-1))] =
   [(bs "Expiration", bs "2023-11-14 22:13:20"); (bs "Issued At", bs "2023-11-14 22:13:20");
@@ -179,6 +189,12 @@ Theorem C18_signature : forall J s j,
 Proof. exact signature_shown. Qed.
 Print Assumptions C18_signature.
 
+(* the encoder typed into the spec checker from RFC 4648 section 5 agrees with the model's *)
+Theorem C18_spec_encoder_agrees : forall l, bytes_ok l = true ->
+  Run.C18.spec_b64url l = encode RawURL l.
+Proof. exact Proofs.JwtDate.spec_encoder_agrees. Qed.
+Print Assumptions C18_spec_encoder_agrees.
+
 Theorem C18_signature_injective : forall a b, bytes_ok a = true -> bytes_ok b = true ->
   encode RawURL a = encode RawURL b -> a = b.
 Proof. exact signature_text_injective. Qed.
@@ -230,8 +246,47 @@ Proof.
 Qed.
 Print Assumptions C18_F13_refuted.
 
-(* Not proved here (DESIGN 4/C18, C18_dispatch): that file.Inspect reaches JWTData for every
-   recognised token, i.e. that no earlier row of the format table (magic prefixes, IsUUID) claims
-   it.  It depends on properties of the JSON oracle (an object starts with white space or '{')
-   and on the UUID library; it is exercised by the op "inspect" of the correspondence check on
-   every well-formed generated token (which found F37: the ASN.1 rows used to come first). *)
+(* ---- dispatch (F37) ---- *)
+(* T1: in the regenerated format table the first row sniffed by IsJWT has the parser JWTData and is
+   preceded only by rows without a sniffer (reserved names, signatures) or with the UUID sniffer;
+   in particular the ASN.1 rows come later. *)
+Theorem C18_dispatch_table_ok : Proofs.JwtDispatch.dispatch_ok Model.Dispatch.table = true.
+Proof. exact Proofs.JwtDispatch.dispatch_ok_now. Qed.
+Print Assumptions C18_dispatch_table_ok.
+
+(* Inspect reaches JWTData: when no reserved-name row and no signature row matches and the input
+   is not a UUID, an input that IsJWT accepts is described by JWTData whatever the later sniffers
+   (IsASN1, IsBase64ASN1, IsMixedPEM) answer.  (DESIGN's C18_dispatch, PARTIAL: the three
+   hypotheses about names, signatures and the UUID sniffer are assumed, not derived from
+   well-formedness of the token; they are exercised by the op "inspect" on every well-formed case.) *)
+Theorem C18_dispatch_partial : forall sniff parse name data i,
+  (forall r, In r Model.Dispatch.table -> Model.Dispatch.matches_name r name = Ok false) ->
+  (forall r, In r Model.Dispatch.table -> Model.Dispatch.matches_magic r data = false) ->
+  sniff (bs "IsUUID") data = false ->
+  sniff (bs "IsJWT") data = true ->
+  parse (bs "JWTData") data = Ok i ->
+  Model.Dispatch.inspect sniff parse name data = Ok i.
+Proof. exact Proofs.JwtDispatch.jwt_reached_now. Qed.
+Print Assumptions C18_dispatch_partial.
+
+(* the hypotheses can be met: a 123-byte token (the witness of F37) under an ordinary name *)
+Example C18_dispatch_example :
+  let data := bs "eyJhbGciOiJIUzI1NiIsInR5cCI6IkpXVCJ9.eyJzdWIiOiJ4eHh4eHh4eHh4eHh4eHh4eHh4eHh4eHh4eHh4eHh4eHh4eHh4eHh4eHh4eHh4eHgifQ.AQEBAQE" in
+  length data = 123%nat /\
+  forallb (fun r => match Model.Dispatch.matches_name r (bs "token.jwt") with Ok false => true | _ => false end
+                    && negb (Model.Dispatch.matches_magic r data)) Model.Dispatch.table = true.
+Proof. vm_compute. split; reflexivity. Qed.
+
+(* the table order before the repair (JWT after the ASN.1 rows) fails the T1 check *)
+Theorem C18_F37_refuted :
+  Proofs.JwtDispatch.dispatch_ok
+    [mkrow [] [] (bs "IsUUID") (bs "UUIDValue"); mkrow [] [] (bs "IsASN1") (bs "ASN1File");
+     mkrow [] [] (bs "IsBase64ASN1") (bs "Base64ASN1File"); mkrow [] [] (bs "IsJWT") (bs "JWTData")] = false.
+Proof. exact Proofs.JwtDispatch.dispatch_order_before_F37_rejected. Qed.
+Print Assumptions C18_F37_refuted.
+
+(* Missing for the full C18_dispatch of DESIGN 4/C18 ("forall well-formed tok, the first candidate
+   is JWTData"): deriving the three hypotheses of C18_dispatch_partial from recognition.  That needs
+   facts about the JSON oracle (an object's text starts with white space or '{', so a first segment
+   never starts with a signature such as "ssh-rsa") and about the UUID library; both are exercised
+   by the op "inspect" of the correspondence check on every well-formed generated token. *)
